@@ -142,7 +142,7 @@ impl Selector {
                     } else {
                         return false;
                     };
-                    let mut idx = 0i32;
+                    let mut idx = 0i64;
                     for child in parent.children.borrow().iter() {
                         if let Element { .. } = child.data {
                             if sel.matches(child) {
@@ -162,8 +162,10 @@ impl Selector {
                     /* The selector matches if idx == a*n + b, where
                      * n >= 0
                      */
-                    let idx_offset = idx - b;
-                    if *a == 0 {
+                    // Use i64 so that extreme values of a and b can't overflow.
+                    let a = i64::from(*a);
+                    let idx_offset = idx - i64::from(*b);
+                    if a == 0 {
                         return idx_offset == 0 && Self::do_matches(&comps[1..], node);
                     }
                     if (idx_offset % a) != 0 {
